@@ -118,6 +118,8 @@ def site_of_calls(p):
         elif it["k"] == "text":
             for j, part in enumerate(it["parts"], 1):
                 scan(part, (i, "text", j))
+        elif it["k"] == "code":
+            scan(it["e"], (i, "code", 0))
     return m
 
 
